@@ -218,12 +218,16 @@ fn case(run: &Run, i: u64, rng: &mut Rng, st: &mut State, thorough: bool) {
             ("error", J::s(err)),
         ])
     };
+    // runs in which the coin exhausts its 1000 attempts for one draw are outside the claim; only the cubic extension
+    // of the 62-bit field (24-byte elements, three 62-bit coefficients: 63 of 64 candidates are rejected) has a
+    // noticeable chance of that, so the exclusion is applied there only and its rate is bounded at the end of the run
+    let exhaustible = fd == Fd::F62 && ext == FieldExtension::Cubic;
     let fsig = feats.iter().filter(|f| f.starts_with("width") || f.starts_with("queries") || f.starts_with("composition")).cloned().collect::<Vec<_>>().join(",");
     st.evals += 1;
     let proof = match stark::prove(&inst, false) {
         Proved::Ok(p) => p,
         Proved::Err(e) => {
-            if e.contains("failed to draw") {
+            if exhaustible && wfv::report::is_coin_exhaustion(&e) {
                 st.count("outside_claim.coin_exhausted");
             } else {
                 st.violation(format!("prove-error:{}{tag}[{fsig}]", norm(&e)), detail("prover returned an error for a valid trace", &e));
@@ -231,15 +235,27 @@ fn case(run: &Run, i: u64, rng: &mut Rng, st: &mut State, thorough: bool) {
             return;
         },
         Proved::Panic(p) => {
-            st.violation(format!("prove-panic:{}{tag}[{fsig}]", p.sig), detail("prover panicked for a valid trace", &p.msg));
+            // the prover's channel turns a failed draw into a panic (expect)
+            if exhaustible && wfv::report::is_coin_exhaustion(&p.msg) {
+                st.count("outside_claim.coin_exhausted");
+            } else {
+                st.violation(format!("prove-panic:{}{tag}[{fsig}]", p.sig), detail("prover panicked for a valid trace", &p.msg));
+            }
             return;
         },
     };
+    if exhaustible {
+        st.count("proofs.f62_cubic");
+    }
     let acc = AcceptableOptions::MinConjecturedSecurity(0);
     let check = |st: &mut State, what: &str, p: Proof| match stark::verify_proof(fd, hs, &shape, &inst.values, p, &acc, false) {
         Ok(Ok(())) => true,
         Ok(Err(e)) => {
-            st.violation(format!("honest-proof-rejected:{what}:{}{tag}[{fsig}]", norm(&e)), detail(what, &e));
+            if exhaustible && wfv::report::is_coin_exhaustion(&e) {
+                st.count("outside_claim.coin_exhausted");
+            } else {
+                st.violation(format!("honest-proof-rejected:{what}:{}{tag}[{fsig}]", norm(&e)), detail(what, &e));
+            }
             false
         },
         Err(p) => {
@@ -312,6 +328,14 @@ fn main() {
     let thorough = !run.quick();
     let n = run.size(20_000, 1_500_000);
     run.par("cases", n, |i, rng, st| case(&run, i, rng, st, thorough));
+    // the exclusion of coin exhaustion must stay the rare event the property describes: about 1.4e-7 per draw,
+    // some 10^2 draws per proof => well below 1e-4 per proof of the 62-bit field with cubic extension
+    let (ex, cubic) = (run.counter("outside_claim.coin_exhausted"), run.counter("proofs.f62_cubic") + run.counter("outside_claim.coin_exhausted"));
+    run.seq("coin-exhaustion-rate", 1, |_, _, st| {
+        if ex > 3 + cubic / 2_000 {
+            st.violation("coin-exhaustion-far-above-the-documented-rate", J::obj(vec![("runs_with_exhausted_coin", J::i(ex as usize)), ("proofs_over_f62_cubic", J::i(cubic as usize))]));
+        }
+    });
     let mut require = vec![("policy.end_to_end".to_string(), 50), ("roundtrip.other_readers".to_string(), 50)];
     for (fd, hs) in COMBOS {
         require.push((format!("accepted.{fd:?}.{hs:?}"), 20));
